@@ -39,7 +39,16 @@ impl SliceItem {
     pub(crate) fn index_range(&self, dim_size: usize) -> IndexRange {
         let range = match *self {
             SliceItem::Range(range) => range,
-            SliceItem::Index(idx) => SliceRange::new(idx, Some(idx + 1), 1),
+            SliceItem::Index(idx) => {
+                // Resolve negative indices first. `idx..idx + 1` would be the
+                // empty range `-1..0` for the last element.
+                let pos = if idx < 0 {
+                    idx + dim_size as isize
+                } else {
+                    idx
+                };
+                SliceRange::new(pos, Some(pos + 1), 1)
+            }
         };
         range.index_range(dim_size)
     }
